@@ -69,6 +69,80 @@ theorem idempotent (f g : List Slot) (next : Int) (h : assignFrom next f = .ok g
   rw [result_is_llvm_numbering f next g h]
   exact llvm_numbering_accepted f next
 
+/-- The PARSER (asm/local.go createLocals, with the explicit-%0 check) accepts a function exactly when every explicit ID written on an unnamed
+    value-producing slot is the number LLVM gives that slot, and then the numbering is LLVM's. In particular a second definition written `%0`
+    is an error, not a silent renumbering (it used to be: see known_findings.json, fixed). -/
+theorem parser_accepts_exactly_llvm : ∀ (src : List SrcSlot) (next : Int),
+    parseAssignFrom next src =
+      if LLVMSpec.agreesFrom next src then .ok (LLVMSpec.numberFrom next (src.map SrcSlot.toSlot)) else .error
+  | [], next => by simp [parseAssignFrom, assignFrom, zeroKept, LLVMSpec.agreesFrom, LLVMSpec.numberFrom]
+  | s :: rest, next => by
+    have ih := parser_accepts_exactly_llvm rest
+    unfold parseAssignFrom at ih ⊢
+    simp only [List.map_cons]
+    unfold assignFrom LLVMSpec.agreesFrom LLVMSpec.numberFrom
+    by_cases hs : (!s.counts || s.named) = true
+    · have hs' : (!(s.toSlot).counts || (s.toSlot).named) = true := by simpa [SrcSlot.toSlot] using hs
+      simp only [hs, hs', if_true]
+      have h0 : (!(s.written == some 0 && !s.named) || (s.toSlot).id == 0) = true := by
+        cases hw : s.written <;> simp [SrcSlot.toSlot, hw]
+        omega
+      have := ih next
+      cases hr : assignFrom next (rest.map SrcSlot.toSlot) with
+      | error => simp only [hr] at this ⊢; split at this <;> simp_all
+      | ok r =>
+        simp only [hr] at this ⊢
+        simp only [zeroKept, h0, Bool.true_and]
+        by_cases hz : zeroKept rest r = true <;> by_cases ha : LLVMSpec.agreesFrom next rest = true <;> simp_all
+    · have hs' : (!(s.toSlot).counts || (s.toSlot).named) = false := by simpa [SrcSlot.toSlot] using hs
+      have hn : s.named = false := by cases hn : s.named <;> simp_all
+      simp only [hs, hs']
+      have := ih (next + 1)
+      cases hw : s.written with
+      | none =>
+        simp only [SrcSlot.toSlot, hw, Option.getD_none]
+        cases hr : assignFrom (next + 1) (rest.map SrcSlot.toSlot) with
+        | error => simp only [hr] at this ⊢; split at this <;> simp_all
+        | ok r =>
+          simp only [hr] at this ⊢
+          by_cases hz : zeroKept rest r = true <;> by_cases ha : LLVMSpec.agreesFrom (next + 1) rest = true <;>
+            simp_all [zeroKept]
+      | some k =>
+        simp only [SrcSlot.toSlot, hw, Option.getD_some]
+        by_cases hk : k = 0
+        · subst hk
+          cases hr : assignFrom (next + 1) (rest.map SrcSlot.toSlot) with
+          | error => simp only [hr] at this ⊢; split at this <;> simp_all
+          | ok r =>
+            simp only [hr] at this ⊢
+            by_cases hz : zeroKept rest r = true <;> by_cases ha : LLVMSpec.agreesFrom (next + 1) rest = true <;>
+              by_cases h0 : next = 0 <;> simp_all [zeroKept] <;> omega
+        · by_cases hnk : next = k
+          · subst hnk
+            cases hr : assignFrom (next + 1) (rest.map SrcSlot.toSlot) with
+            | error => simp only [hr] at this ⊢; split at this <;> simp_all
+            | ok r =>
+              simp only [hr] at this ⊢
+              by_cases hz : zeroKept rest r = true <;> by_cases ha : LLVMSpec.agreesFrom (next + 1) rest = true <;>
+                simp_all [zeroKept]
+          · have : (some k == some next) = false := by simp; omega
+            simp [hk, hnk, this]
+
+/-- the same as an equivalence for whole functions -/
+theorem parser_accepts_iff (src : List SrcSlot) (l : List Slot) :
+    parseAssign src = .ok l ↔ (LLVMSpec.agreesFrom 0 src = true ∧ l = LLVMSpec.numbering (src.map SrcSlot.toSlot)) := by
+  unfold parseAssign LLVMSpec.numbering
+  rw [parser_accepts_exactly_llvm]
+  by_cases h : LLVMSpec.agreesFrom 0 src = true <;> simp [h, eq_comm]
+
+/-- the witness that used to be accepted (and renumbered %1): two parameters both written `%0`; and a value-yielding terminator written `%0`
+    after six numbered values -/
+example : parseAssign [⟨false, some 0, true⟩, ⟨false, some 0, true⟩] = .error := by decide
+example : parseAssign [⟨false, some 0, true⟩, ⟨false, none, true⟩, ⟨false, some 2, true⟩, ⟨false, some 0, true⟩] = .error := by decide
+/-- non-vacuity: a fully explicit LLVM numbering with named and void slots in between is accepted -/
+example : parseAssign [⟨false, some 0, true⟩, ⟨true, none, true⟩, ⟨false, none, false⟩, ⟨false, some 1, true⟩, ⟨false, none, true⟩] =
+    .ok [⟨false, 0, true⟩, ⟨true, 0, true⟩, ⟨false, 0, false⟩, ⟨false, 1, true⟩, ⟨false, 2, true⟩] := by decide
+
 theorem numberFrom_length : ∀ (f : List Slot) (n : Int), (LLVMSpec.numberFrom n f).length = f.length
   | [], _ => rfl
   | s :: r, n => by unfold LLVMSpec.numberFrom; split <;> simp [numberFrom_length r]
